@@ -15,11 +15,13 @@ import (
 	"encoding/hex"
 	"fmt"
 	"os"
+	"os/signal"
 	"path/filepath"
 	"regexp"
 	"sort"
 	"strconv"
 	"strings"
+	"syscall"
 	"time"
 
 	"github.com/Ptt-official-app/go-pttbbs/bbs"
@@ -486,7 +488,22 @@ func cloneReq(q *request) *request {
 	return &c
 }
 
-func callPost(q *request) (o *observed) {
+// withFileLimit runs f while no file of this process can grow beyond limit bytes (RLIMIT_FSIZE; SIGXFSZ ignored):
+// the write that would cross the limit fails with EFBIG, as a full disk or a quota would make it fail.
+func withFileLimit(limit int, f func()) {
+	if limit <= 0 {
+		f()
+		return
+	}
+	signal.Ignore(syscall.SIGXFSZ)
+	var old syscall.Rlimit
+	_ = syscall.Getrlimit(syscall.RLIMIT_FSIZE, &old)
+	_ = syscall.Setrlimit(syscall.RLIMIT_FSIZE, &syscall.Rlimit{Cur: uint64(limit), Max: old.Max})
+	defer func() { _ = syscall.Setrlimit(syscall.RLIMIT_FSIZE, &old) }()
+	f()
+}
+
+func callPost(q *request, limit int) (o *observed) {
 	o = &observed{reqCopy: cloneReq(q)}
 	o.dirBefore = readDir(q.dirBoard)
 	o.xBefore = readDir("ALLPOST")
@@ -504,7 +521,7 @@ func callPost(q *request) (o *observed) {
 	bboardID := bbs.BBoardID(fmt.Sprintf("%d_%s", q.b.bid, q.dirBoard))
 	uuserID := bbs.UUserID(types.CstrToBytes(q.userID))
 	o.t0 = time.Now().Unix()
-	o.out = hx.Call(func() string {
+	withFileLimit(limit, func() { o.out = hx.Call(func() string {
 		var s *bbs.ArticleSummary
 		var err error
 		if len(arg.from) == 0 {
@@ -536,7 +553,7 @@ func callPost(q *request) (o *observed) {
 		}
 		o.summary = s
 		return "ok"
-	})
+	}) })
 	o.t1 = time.Now().Unix()
 	o.dirAfter = readDir(q.dirBoard)
 	o.xAfter = readDir("ALLPOST")
@@ -594,6 +611,22 @@ func maskLog(r []byte) []byte {
 		copy(m[92:96], []byte{0, 0, 0, 0})
 	}
 	return m
+}
+
+// canonical line of a post that ran under a file-size limit.
+func canonicalFail(q *request, o *observed) string {
+	st := stateLine(q)
+	switch {
+	case o.out == "PANIC" || o.out == "TIMEOUT":
+		return o.out + " " + st
+	case strings.HasPrefix(o.out, "err:") && q.has('n'):
+		return "refused " + st
+	case strings.HasPrefix(o.out, "err:") && q.dirBoard != q.board:
+		return "bad-board-id " + st
+	case strings.HasPrefix(o.out, "err:"):
+		return "failed " + st
+	}
+	return "ok-despite-limit " + st
 }
 
 // canonical line of a post; also returns the file name the new index entry carries.
@@ -674,11 +707,27 @@ func do(line string) {
 			}
 		}
 	case "post":
+		if !H.started {
+			break
+		}
 		q, ok := parsePost(ws)
-		if ok && H.started {
-			o := callPost(q)
+		if ok {
+			o := callPost(q, 0)
 			out, name := canonical(q, o)
 			label := judgePost(opCount, q, o, name)
+			emit(line, out, label, true)
+			return
+		}
+	case "postfail":
+		if !H.started || len(ws) != 11 {
+			break
+		}
+		lim, ok1 := natTok(ws[1])
+		q, ok := parsePost(append([]string{"post"}, ws[2:]...))
+		if ok && ok1 {
+			o := callPost(q, lim)
+			out := canonicalFail(q, o)
+			label := judgeFail(opCount, q, o, lim)
 			emit(line, out, label, true)
 			return
 		}
@@ -736,6 +785,7 @@ func main() {
 		"with and without the announcement tag (also truncated tags); bodies of 0..30 lines over {printable, space, TAB, NUL, ESC, '[', digits, ';', ',', movement finals, 'm', 's', 0x80-0xFE}, with/without a trailing empty line; " +
 		"sequences of 2..12 posts to the same and to different boards; time, date, random suffix and Ctime text masked on both sides (format and range judged by the oracle). " +
 		"pure streams: ptt.StripANSIMoveCmd and cmsys.Trim on enumerated short strings (all strings up to length 4 over a 7-symbol alphabet) and random lines. " +
+		"write failures: posts whose article file may not grow beyond a limit (RLIMIT_FSIZE): the request must fail and leave index, totals, counters untouched. " +
 		"malformed stream: refused (user, board) pairs, a board id whose name and number disagree, unknown directory, ill-formed op lines. " +
 		"nontrivial = reached the real function"
 	if run.Replay != "" {
